@@ -50,7 +50,8 @@ TIME_KINDS = ["duplicate", "replay_retry", "late_removed", "slow_candidate"]
 KINDS = ["none"] + FIELD_KINDS + TIME_KINDS + ["cid_swap", "reorder", "garbage_cands", "dup_created",
                                                      "relabel_as_created", "relabel_as_extended", "fallback_exits",
                                                      "late_relay_after", "late_relay_before", "late_relay_after_nodelay",
-                                                     "malformed_as_created", "replay_create", "replay_create_subst", "replay_create_early"]
+                                                     "malformed_as_created", "replay_create", "replay_create_subst", "replay_create_early",
+                                                     "cid_victim_exit", "cid_victim_own"]
 
 
 def z(n):
@@ -460,7 +461,7 @@ class Net(TunnelNet):
                 return orig_send_cell(target, payload)
             n = type(payload).__name__
             outs = [payload]
-            if n in ("CreatePayload", "ExtendPayload") and ov is net.origin and ov._c08_cur is not None:
+            if n in ("CreatePayload", "ExtendPayload") and payload.circuit_id in ov.circuits:
                 c = ov.circuits.get(payload.circuit_id)
                 if c is not None and c.unverified_hop is not None:
                     net.attempts.setdefault(payload.circuit_id, []).append(
@@ -771,6 +772,7 @@ class Attack:
         self.static = None       # the attacker's own static key (network attacker: a key of its own)
         self.log = []
         self.creates, self.replies, self.subst, self.replaying = [], [], [], False
+        self.victim = None
 
     def k_now(self, c=None):
         return len((c or self.circuit)._hops) + 1
@@ -870,7 +872,8 @@ class Attack:
         from ipv8.messaging.anonymization.payload import CreatedPayload, ExtendedPayload
         n = type(payload).__name__
         c = self.circuit
-        if self.pos == "network" or self.kind.startswith("late_relay") or self.kind.startswith("replay_create") or self.kind in ("none", "fallback_exits", "malformed_as_created", "cid_swap", "reorder", "dup_created", "relabel_as_created",
+        if self.pos == "network" or self.kind.startswith("late_relay") or self.kind.startswith("replay_create") \
+                or self.kind.startswith("cid_victim") or self.kind in ("none", "fallback_exits", "malformed_as_created", "cid_swap", "reorder", "dup_created", "relabel_as_created",
                                                   "relabel_as_extended"):
             return [payload]
         if self.fired and self.kind not in ("duplicate",):
@@ -923,6 +926,15 @@ class Attack:
     # -- the wire
     def on_wire(self, net, src, dst, data):
         c = self.circuit
+        if self.kind.startswith("cid_victim"):
+            # the created that answers the create of exchange 2, on its way to the relay: only the circuit id in the
+            # (unauthenticated) cell header is replaced - by the id of ANOTHER circuit that ends at this relay
+            if len(data) > 30 and data[22] == 0 and data[27] and data[29] == 3 and not self.fired \
+                    and self.k_now() == 2 and tuple(dst) == tuple(self.victim["relay"].my_peer.address):
+                self.fired += 1
+                self.log.append(("wire", "created to the relay", self.kind))
+                return [(dst, data[:23] + struct.pack("!I", self.victim["cid"]) + data[27:])]
+            return [(dst, data)]
         if self.kind.startswith("replay_create"):
             if len(data) > 30 and data[22] == 0 and data[27] and data[29] == 2 and not self.replaying:
                 self.creates.append((src, dst, data))         # every create seen on any link
@@ -1082,6 +1094,8 @@ def specs(ctx):
                     continue
                 if kind.startswith("replay_create") and not (pos == "network" and k == hops):
                     continue
+                if kind.startswith("cid_victim") and not (pos == "network" and hops == 2 and k == 2):
+                    continue
                 relay_role = (pos == "first" and k == 2) or (pos == "middle" and k == 3)
                 if kind in ("relabel_as_created", "malformed_as_created") and not ((pos == "network" and k >= 2) or relay_role):
                     continue
@@ -1134,6 +1148,10 @@ async def scenario(spec, base_seed, sweep=None):
             if kind.endswith("nodelay"):
                 for ov in net.nodes.values():
                     ov.settings.remove_tunnel_delay = 0
+        victim = None
+        if kind.startswith("cid_victim"):
+            victim = await setup_victim(net, kind)
+            ckw = {"required_exit": victim["exit_peer"]}
         c1 = net.new_circuit(o, hops, **ckw)
         two = kind in ("ident_other", "cid_swap", "reorder")
         c2 = net.new_circuit(o, hops, exit_flags=[2]) if two else None
@@ -1143,6 +1161,7 @@ async def scenario(spec, base_seed, sweep=None):
             await net.stop()
             return net, None, info
         atk = Attack(kind, pos, k, rng, c1, c2)
+        atk.victim = victim
         net.attack = atk
         if sweep is not None:
             net.net.filter = sweep
@@ -1187,6 +1206,8 @@ async def scenario(spec, base_seed, sweep=None):
         await loop.advance(6.0)          # lets pending remove_circuit tasks pass their delay (purge events)
         await net.drive()
         info["attacker_keys"] = attacker_exit_keys(net, atk) if kind == "replay_create_subst" else []
+        if victim is not None:
+            info["victim"] = await victim_after(net, victim)
         info["final"] = {n: snapshot(ov) for n, ov in net.nodes.items()}
         info["path"] = path_check(net, c1) if c1.state == "READY" and c1.circuit_id in o.circuits else []
         info["state"] = (c1.state, len(c1._hops))
@@ -1194,6 +1215,51 @@ async def scenario(spec, base_seed, sweep=None):
         net.active = False
         await net.stop()
     return net, atk, info
+
+
+def relay_entries(ov, cid):
+    """what a node holds under a circuit id, for comparison"""
+    es, rr, ci = ov.exit_sockets.get(cid), ov.relay_from_to.get(cid), ov.circuits.get(cid)
+    return (keybytes(es.hop.keys) if es is not None else None,
+            (rr.circuit_id, keybytes(rr.hop.keys), rr.direction) if rr is not None else None,
+            [keybytes(h.keys) for h in ci._hops] if ci is not None else None)
+
+
+async def setup_victim(net, kind):
+    """the main circuit will run origin -> exit0 (relay) -> exit1; before that ANOTHER circuit is established that
+    ends at exit0: a 1-hop circuit of another originator (exit0 holds its exit socket), or exit0's own circuit"""
+    from ipv8.peer import Peer
+    o, relay, last = net.origin, net.nodes["exit0"], net.nodes["exit1"]
+
+    def peer_of(ov, node):
+        for p in ov.candidates:
+            if bytes(p.public_key.key_to_bin()) == bytes(node.my_peer.public_key.key_to_bin()):
+                return p
+        return Peer(node.my_peer.public_key.key_to_bin(), node.my_peer.address)
+    # the originator knows only these two peers: exit0 becomes the first hop, exit1 the required exit
+    keep = {peer_of(o, relay): list(relay.settings.peer_flags), peer_of(o, last): list(last.settings.peer_flags)}
+    o.candidates.clear()
+    o.candidates.update(keep)
+    if kind == "cid_victim_exit":
+        owner = net.nodes["relay0"]
+        vc = net.new_circuit(owner, 1, required_exit=peer_of(owner, relay))
+    else:
+        owner = relay
+        vc = net.new_circuit(owner, 1, required_exit=peer_of(owner, last))
+    await net.drive()
+    v = {"owner": owner, "circuit": vc, "cid": vc.circuit_id, "relay": relay, "exit_peer": peer_of(o, last),
+         "ready": vc.state == "READY", "before": relay_entries(relay, vc.circuit_id)}
+    return v
+
+
+async def victim_after(net, v):
+    owner, vc = v["owner"], v["circuit"]
+    n0 = len(net.exits_out)
+    if vc.circuit_id in owner.circuits and vc._hops:
+        owner.send_data(vc.hop.address, vc.circuit_id, ("1.2.3.4", 5), NULL, b"\x00\x01" + b"v" * 40)
+        await net.drive()
+    return {"ready": v["ready"], "before": v["before"], "after": relay_entries(v["relay"], v["cid"]),
+            "data": len(net.exits_out) > n0, "cid": v["cid"], "relay": v["relay"]._verif_name}
 
 
 def attacker_exit_keys(net, atk):
@@ -1459,7 +1525,8 @@ def oracle(net, atk, info, report):
     c1 = info.get("c1")
     if (spec[3] in ("none", "reorder", "duplicate", "dup_created", "relabel_as_created", "relabel_as_extended",
                     "fallback_exits", "late_relay_after", "late_relay_after_nodelay", "malformed_as_created")
-            or spec[3].startswith("replay_create")
+            or spec[3].startswith("replay_create") or spec[3].startswith("cid_victim")
+            or (spec[3] == "flip_cid" and spec[1] == "network" and spec[2] >= 2)
             or (spec[3] in ("zero_key", "short_key") and spec[2] == 1)) and c1 is not None:
         if info["state"] != ("READY", spec[0]):
             report("honest/not-ready", "circuit not READY after an honest build (%s, state %s, %d hops)" % (spec, *info["state"]))
@@ -1482,11 +1549,25 @@ def oracle(net, atk, info, report):
                     "fallback_exits", "late_relay_after", "late_relay_after_nodelay", "late_relay_before", "slow_candidate",
                     "replay_retry")
     for wrong_node, b in info.get("path", []):
-        if spec[3].startswith("replay_create"):
+        if spec[3].startswith("cid_victim") or (spec[3] == "flip_cid" and spec[1] == "network" and spec[2] >= 2):
+            report("path/relay-route-leads-elsewhere", "%s (%s)" % (b, spec))
+        elif spec[3].startswith("replay_create"):
             # a create seen on the wire came again after the circuit was READY: no established hop may be re-keyed
             report("replay/create-rekeyed-established-hop", "%s (%s)" % (b, spec))
         elif wrong_node or spec[3] in honest_kinds:
             report("path/relay-route-leads-elsewhere", "%s (%s)" % (b, spec))
+    vi = info.get("victim")
+    if vi is not None:
+        # a created for the circuit under construction names, in its cell header, ANOTHER circuit that ends at the relay:
+        # that circuit's entries at the relay stay as they were and it still carries data
+        if not vi["ready"]:
+            report("harness/victim-not-built", "the second circuit could not be established (%s)" % spec)
+        elif vi["before"] != vi["after"]:
+            report("created/other-circuit-changed", "the entries of circuit %d at %s changed: exit socket / relay route / own circuit "
+                   "before %s, after %s (%s)" % (vi["cid"], vi["relay"], [x is not None for x in vi["before"]],
+                                                  [x is not None for x in vi["after"]], spec))
+        elif not vi["data"]:
+            report("created/other-circuit-changed", "circuit %d ending at %s no longer carries data (%s)" % (vi["cid"], vi["relay"], spec))
     for b in info.get("attacker_keys", []):
         report("replay/attacker-holds-exit-keys", "%s (%s)" % (b, spec))
     # exceptions escaping the receive path (e.g. RuntimeError of a failed cell decryption) are C03/C04 matter:
